@@ -416,7 +416,8 @@ func (s *Sim) callAccessDropped(c *Client, r *CReq) bool {
 		if q.CIdx != c.CIdx || q.Name != name || q.Query != query {
 			continue
 		}
-		if q.Type == "access" && q.Delivered && q.Seq > r.Seq {
+		if q.Type == "access" && q.Delivered && q.DlvSeq > r.Seq {
+			// (the request may ride on an access request that was already under way)
 			accessAnswered = true
 		}
 		if q.Type == "call" && q.Method == m {
